@@ -9,7 +9,19 @@ PROVED = ["_responsible_party_rule", "_associated_responsible_party_rule", "_con
           "_individual_name_rule", "_other_entity_rule", "_title_rule", "_description_rule"]
 
 
-def task(which):
+def task_lemma():
+    """L-fold-filter (induction over the child index; base and step discharged by z3)"""
+    from pyvc.task import TaskResult
+    from pyvc.core import ObRec
+    from contracts import c19_eval
+    r = TaskResult("C19/lemma:fold-filter")
+    for nm, ok, t in c19_eval.fold_filter_lemma():
+        r.obs.append(ObRec(f"C19/lemma:fold-filter/{nm}", "proved" if ok else "undecided", t, kind="lemma"))
+    r.assumptions.add("induction over the naturals is applied outside the solver (base case and step are the two obligations)")
+    return r
+
+
+def task(which, shard=None, preload=None):
     from pyvc.task import Task
     from contracts.prelude import make_world
     from contracts import c19_eval, c11_frames
@@ -20,10 +32,16 @@ def task(which):
         con.ignore_exceptions = False      # totality: nothing may escape (the evaluators enter by their contracts, which raise nothing)
         return Task(w, f, con, name=f"C19/evaluate.{which}[total]").run()
     fs = c19_eval.install(w)
-    if which == "_description_rule":
+    if which in ("_description_rule", "_dataset_rule"):
         w.add(fs["__gtc"])
+    if which == "_dataset_rule":
+        from contracts import c09_queries as Q9
+        Q9.install_find_all_children(w)
     f, con = fs[which]
-    return Task(w, f, con, name=f"C19/{which}").run()
+    if shard is not None:
+        return Task(w, f, con, name=f"C19/{which}[paths {''.join('T' if b else 'F' for b in shard[1])} at decisions {shard[0]}..]", shard=(shard[0], tuple(shard[1])),
+                    max_paths=20000, preload=preload).run()
+    return Task(w, f, con, name=f"C19/{which}", max_paths=20000).run()
 
 
 # ------------------------------------------------------------------------------------------------ independent oracle
@@ -357,12 +375,17 @@ def bounded(tier, seed):
 
 def main(tier, seed):
     t0 = time.time()
-    results = common.run_tasks([("props.C19", "task", {"which": w}) for w in PROVED + ["node", "tree"]], procs=12)
+    specs = [("props.C19", "task", {"which": w}) for w in PROVED + ["node", "tree", "_datatable_rule"]]
+    # _dataset_rule has ~450 paths: they are partitioned by the decisions 1..4 (abstract present / has text / short / coverage present) over 16 tasks
+    specs.append(("props.C19", "task_lemma", {}))
+    shards = [("props.C19", "task", {"which": "_dataset_rule", "shard": [1, list(bits)]}) for bits in itertools.product((True, False), repeat=4)]
+    results = common.run_tasks(specs, procs=16) + common.run_sharded(shards, "C19._dataset_rule")
     b = bounded(tier, seed)
     return common.decide(PID, tier, seed, results, b, t0, "DESIGN.md §4 C19", extra_assumptions=[
-        "proved: ten of the twelve evaluator functions (the responsible-party family, individual name, other entity, title, description) return "
-        "exactly the documented warnings as (code, message, node) triples in the documented order and raise nothing; evaluate.node / evaluate.tree "
-        "let no exception escape given that (their frames are C11)",
+        "proved: all twelve evaluator functions return exactly the documented warnings as (code, message, node) triples in the documented order and "
+        "raise nothing; evaluate.node / evaluate.tree let no exception escape given that (their frames are C11). For _dataset_rule and _datatable_rule "
+        "the specification names the child each check looks at (the last child with a name for the loops that keep overwriting, the first for "
+        "the loops that break), the keyword total is a fold over the keywordSet children (related to the code's fold over its filtered list by "
+        "the lemma fold-filter, proved by induction), and the path space of _dataset_rule is partitioned over 16 tasks by four early decisions",
         "word counts are integer comparisons on the uninterpreted functions normalize_text / py_split_count (A-str); get_text_content enters by name",
-        "BOUNDED, not proved: _dataset_rule and _datatable_rule (path explosion in long if-sequences), the concatenation order of evaluate.tree, "
-        "and get_text_content's collected text"])
+        "BOUNDED, not proved: the concatenation order of evaluate.tree, and get_text_content's collected text"])
